@@ -2,12 +2,15 @@
 package main
 
 import (
+	"context"
 	"fmt"
 	"runtime"
+	"sort"
 	"strings"
 	"sync"
 	"time"
 
+	"github.com/acquirecloud/golibs/kvs"
 	"verifh/internal/bfs"
 	"verifh/internal/ev"
 	"verifh/internal/kvh"
@@ -161,6 +164,49 @@ func main() {
 	st.States += st2.States
 	st.Transitions += st2.Transitions
 	st.Fixpoint = st.Fixpoint && st2.Fixpoint
+	// third part, one long deterministic history: keys that differ only in ways a key mapping might normalise away are
+	// different keys (trailing / doubled slash, dot segments, blanks, case, glob meta characters, percent escapes)
+	tricky := []string{"a", "a/", "a//b", "a/b", "a/./b", "a/../b", "b", "a b", " a", "a ", "a.", "A", "\u00e4", "a*", "a?", "[a]", "a\\", "%61", "a\n", "a:b", "a#b"}
+	{
+		e := <-pool
+		ctx := context.Background()
+		for name, stg := range map[string]kvs.Storage{"inmem": e.im.Fresh(), "redis": e.rd.Fresh()} {
+			bad := ""
+			for _, k := range tricky {
+				if _, err := stg.Create(ctx, kvs.Record{Key: k, Value: []byte("value of " + k)}); err != nil && bad == "" {
+					bad = fmt.Sprintf("Create(%q) on a store that holds none of the earlier keys' names returned %v", k, err)
+				}
+			}
+			for _, k := range tricky {
+				if r, err := stg.Get(ctx, k); (err != nil || string(r.Value) != "value of "+k || r.Key != k) && bad == "" {
+					bad = fmt.Sprintf("after creating %d distinct keys Get(%q) = (key %q, value %q, %v)", len(tricky), k, r.Key, r.Value, err)
+				}
+			}
+			if it, err := stg.ListKeys(ctx, "*"); err == nil {
+				var got []string
+				for it.HasNext() {
+					k, _ := it.Next()
+					got = append(got, k)
+				}
+				it.Close()
+				sort.Strings(got)
+				want := append([]string{}, tricky...)
+				sort.Strings(want)
+				if fmt.Sprint(got) != fmt.Sprint(want) && bad == "" {
+					bad = fmt.Sprintf("ListKeys(*) = %q, the keys created are %q", got, want)
+				}
+			}
+			for _, k := range tricky {
+				if err := stg.Delete(ctx, k); err != nil && bad == "" {
+					bad = fmt.Sprintf("Delete(%q) of a key created before returned %v", k, err)
+				}
+			}
+			if bad != "" {
+				found = append(found, bfs.Found[kvh.Op]{V: &bfs.Violation{Sig: name + " key-identity", Detail: name + ": " + bad}})
+			}
+		}
+		pool <- e
+	}
 	for k := range knownSeen {
 		run.Violation(k, "", nil)
 	}
